@@ -12,6 +12,7 @@ import (
 	"sort"
 	"strings"
 	"sync"
+	"sync/atomic"
 
 	"cloud.google.com/go/iam/apiv1/iampb"
 	"cloud.google.com/go/kms/apiv1/kmspb"
@@ -172,10 +173,14 @@ type model struct {
 	budget    int
 	budgetHit bool
 
-	faultAt     int
-	faultErr    error
+	plan        faultPlan
+	faultFrom   int // sequence number of the RPC at which the plan was triggered (0: not yet)
 	faultHit    bool
 	faultMethod string
+	faultsDone  int         // RPCs that were answered with the planned failure
+	endable     *endableCtx // the caller's context, when the plan ends it
+	hardLimit   int
+	parked      atomic.Bool // the call went on past hardLimit and was aborted by the model
 
 	gets        int
 	cancelAtGet int
@@ -197,18 +202,133 @@ func newModel(p paging) *model {
 
 var errBudget = status.Error(codes.ResourceExhausted, "verif: RPC budget of the scenario exhausted")
 
+// hardStop is the panic value with which the model aborts a call that keeps issuing RPCs long
+// after the budget was exhausted (a loop that retries on every error, including the budget's).
+type hardStop struct{}
+
+// A faultPlan says which RPCs of a run fail. It is triggered at the At-th RPC of the run (or,
+// when Method is set, at the At-th call of that method) and then covers
+//
+//	single         that RPC only
+//	burst          that RPC and the next Span-1 ones (the service recovers afterwards)
+//	outage         every RPC from there on (the service stays down)
+//	method-outage  every later call of the same method (one method denied/down, the rest works)
+//	ctx-deadline   the caller's context expires during that RPC: Done() is closed, Err() is
+//	ctx-cancel     DeadlineExceeded/Canceled, and, as a gRPC client does, that RPC and every
+//	               later one is answered with the status made from the context's error.
+type faultPlan struct {
+	At     int    `json:"at"`
+	Method string `json:"nth_call_of_method,omitempty"`
+	Mode   string `json:"mode"`
+	Span   int    `json:"span,omitempty"`
+	Class  string `json:"class"`
+	err    error
+}
+
+func (p faultPlan) active() bool { return p.At > 0 }
+func (p faultPlan) endsCtx() bool {
+	return p.Mode == "ctx-deadline" || p.Mode == "ctx-cancel"
+}
+
+func (p faultPlan) String() string {
+	if !p.active() {
+		return "none"
+	}
+	at := fmt.Sprintf("rpc%d", p.At)
+	if p.Method != "" {
+		at = fmt.Sprintf("%s#%d", p.Method, p.At)
+	}
+	return fmt.Sprintf("%s:%s@%s", p.Mode, p.Class, at)
+}
+
+// endableCtx is a caller's context that the model ends at a chosen RPC, so that "the deadline
+// passed while the service was being polled" needs no real clock.
+type endableCtx struct {
+	context.Context
+	mu   sync.Mutex
+	done chan struct{}
+	err  error
+}
+
+func newEndableCtx(parent context.Context) *endableCtx {
+	return &endableCtx{Context: parent, done: make(chan struct{})}
+}
+func (c *endableCtx) Done() <-chan struct{} { return c.done }
+func (c *endableCtx) Err() error {
+	c.mu.Lock()
+	defer c.mu.Unlock()
+	return c.err
+}
+func (c *endableCtx) end(err error) {
+	c.mu.Lock()
+	defer c.mu.Unlock()
+	if c.err == nil {
+		c.err = err
+		close(c.done)
+	}
+}
+
+// planned decides whether the current RPC (already counted) fails under the plan.
+func (m *model) planned(method string) error {
+	p := &m.plan
+	if !p.active() {
+		return nil
+	}
+	if m.faultFrom == 0 {
+		if (p.Method == "" && m.calls == p.At) || (p.Method == method && m.per[method] == p.At) {
+			m.faultFrom, m.faultHit, m.faultMethod = m.calls, true, method
+			if p.endsCtx() && m.endable != nil {
+				if p.Mode == "ctx-deadline" {
+					m.endable.end(context.DeadlineExceeded)
+				} else {
+					m.endable.end(context.Canceled)
+				}
+			}
+		} else {
+			return nil
+		}
+	}
+	switch p.Mode {
+	case "single":
+		if m.calls != m.faultFrom {
+			return nil
+		}
+	case "burst":
+		if m.calls >= m.faultFrom+max(1, p.Span) {
+			return nil
+		}
+	case "method-outage":
+		if method != m.faultMethod {
+			return nil
+		}
+	case "outage":
+	case "ctx-deadline", "ctx-cancel":
+		if m.endable != nil {
+			m.faultsDone++
+			return status.FromContextError(m.endable.Err()).Err()
+		}
+	default:
+		return nil
+	}
+	m.faultsDone++
+	return p.err
+}
+
 // enter accounts for one RPC; a non-nil error is what the RPC must return.
 func (m *model) enter(method, arg string) error {
 	m.calls++
 	m.per[method]++
 	var err error
+	if m.hardLimit > 0 && m.calls > m.hardLimit {
+		// Refusing did not end the call: abort it (callers hold m.mu through a deferred Unlock).
+		m.parked.Store(true)
+		panic(hardStop{})
+	}
 	if m.calls > m.budget {
 		m.budgetHit = true
 		err = errBudget
-	} else if m.faultAt > 0 && m.calls == m.faultAt {
-		m.faultHit = true
-		m.faultMethod = method
-		err = m.faultErr
+	} else {
+		err = m.planned(method)
 	}
 	rec := callRec{Seq: m.calls, Method: method, Arg: arg}
 	if err != nil {
